@@ -32,7 +32,7 @@ RUNNER = os.path.join(os.path.dirname(os.path.dirname(os.path.abspath(__file__))
 
 SAFE_SRC = "import math\nprint(math.sqrt(2))\n"
 BAD_SRC = "import os\nos.system('true')\n"
-OPTS = ["-B", "-u", "-O", "-W", "ignore", "-X", "dev", "-E", "-s", "-q", "-I", "-i", "-c", "-m", "calendar", "-", "-h", "--version", "-V", "-x", "-Bx", "--help", "-VV", "-Wd", "--check-hash-based-pycs", "never", "timeit", "json.tool"]
+OPTS = ["-B", "-u", "-O", "-W", "ignore", "-X", "dev", "-E", "-s", "-q", "-I", "-i", "-c", "-m", "calendar", "-", "-h", "--version", "-V", "-x", "-Bx", "--help", "-VV", "-Wd", "--check-hash-based-pycs", "never", "timeit", "json.tool", "-BW", "-Bc", "-cimport os", "-mcalendar", "-Bm", "-BX", "-Bh", "-BV", "-hB", "-IW", "-Bmcalendar", "-uXdev", "-W"]
 FILES = ["safe.py", "bad.py", "sub/safe.py", "sub/bad.py", "noext", "big.py", "missing.py", "dir.py", "./safe.py", "../probe/safe.py"]
 
 
@@ -115,7 +115,7 @@ def corr_runs(model, r, n):
     try:
         for name in ("a.py", "b.py", "calendar.py"):
             open(os.path.join(root, name), "w").write(MARK)
-        opts = ["-B", "-u", "-O", "-W", "ignore", "-X", "dev", "-E", "-s", "-q", "-c", "print('CODE')", "-m", "a", "-", "-h", "--version", "-V", "-x", "--help", "-VV", "-Wd", "-I"]
+        opts = ["-B", "-u", "-O", "-W", "ignore", "-X", "dev", "-E", "-s", "-q", "-c", "print('CODE')", "-m", "a", "-", "-h", "--version", "-V", "-x", "--help", "-VV", "-Wd", "-I", "-BW", "-Bc", "-cprint('CODE')", "-ma", "-Bm", "-BX", "-Bh", "-BV", "-hB", "-IW", "-Bmb", "-uXdev", "-Bcprint('CODE')"]
         jobs = []
         for _ in range(n):
             args = [r.pick(opts) for _ in range(r.randint(0, 3))]
@@ -419,8 +419,15 @@ def finding_still_fails(ctx, entry) -> bool:
 
     d = tempfile.mkdtemp(prefix="dippy-verif-pyf-")
     try:
-        open(os.path.join(d, "script.py"), "w").write(entry["witness"]["script"])
-        return analyze("python3 script.py", Config(), Path(d)).action == "allow"
+        w = entry["witness"]
+        if "script" in w:
+            open(os.path.join(d, "script.py"), "w").write(w["script"])
+            return analyze("python3 script.py", Config(), Path(d)).action == "allow"
+        # a command witness: safe.py imports json, evil/json.py is what PYTHONPATH=evil makes it import
+        open(os.path.join(d, "safe.py"), "w").write("import json\nprint(json.dumps(1))\n")
+        os.makedirs(os.path.join(d, "evil"))
+        open(os.path.join(d, "evil", "json.py"), "w").write("import os\nos.system('true')\n")
+        return analyze(w["command"], Config(), Path(d)).action == "allow"
     finally:
         shutil.rmtree(d, ignore_errors=True)
 
